@@ -295,7 +295,7 @@ theorem agree_removedApportionment {sP : Sig} {P P' : Sem}
 
 theorem agree_byParty {sO sA : Sig} {O O' A A' : Sem} (hO : Agree sO O O') (hA : Agree sA A A')
     (hsa : sA.seats = true) (hp : sA.prev = true) (hm : sA.max = true) :
-    Agree allSig (byPartyImpl sO.seats sA.prev O A) (byPartyLaw O' A') := by
+    Agree allSig (byPartyImpl sO.seats sA.prev sA.max O A) (byPartyLaw O' A') := by
   intro a
   cases sO with | mk oseats oprev omax oext =>
   cases sA with | mk seats prev max ext =>
@@ -601,12 +601,12 @@ theorem agree_tree : ∀ (t : Ev), WellFormed t = true → Agree (takes t) (eval
       | some al =>
         simp only [WellFormed, takesAll, Bool.and_eq_true] at h
         obtain ⟨hwo, hwa, ⟨hsa, hpa⟩, hma⟩ := h
-        simp only [eval, denote, takes, acceptsPrevGains_faithful, acceptsSeats_faithful]
+        simp only [eval, denote, takes, acceptsPrevGains_faithful, acceptsSeats_faithful, acceptsMaxSeats_faithful]
         exact agree_byParty (agree_tree overall hwo) (agree_tree al hwa) hsa hpa hma
       | none =>
         simp only [WellFormed, takesAll, Bool.and_eq_true] at h
         obtain ⟨hwo, ⟨hso, hpo⟩, hmo⟩ := h
-        simp only [eval, denote, takes, acceptsPrevGains_faithful, acceptsSeats_faithful]
+        simp only [eval, denote, takes, acceptsPrevGains_faithful, acceptsSeats_faithful, acceptsMaxSeats_faithful]
         exact agree_byParty (agree_tree overall hwo) (agree_tree overall hwo) hso hpo hmo
   | .multistage rounds depth, h => by
       simp only [WellFormed] at h
